@@ -289,6 +289,23 @@ func gen(c *hx.Ctx) {
 			c.Count("len_boundary")
 		}
 	}
+	// big records that are really present (64 KiB boundary and above), never at offset 0 and followed by further values:
+	// the position after the big read and everything read after it is compared
+	bigSizes := []int{65535, 65536, 65537, 70000, 1 << 20}
+	for i := 0; i < c.Budget(0, 6); i++ {
+		bigSizes = append(bigSizes, c.Rng.Range(65536, 400000))
+	}
+	for _, n := range bigSizes {
+		for _, t := range []string{"B:", "S:"} {
+			if n == 1<<20 && !c.Thorough() && (t == "S:") == c.Rng.Bool() {
+				continue // quick tier: the 1 MiB record once, as bytes or as string
+			}
+			pre := []string{"y:07", "i:" + strconv.FormatInt(int64(randI32(c)), 10), "S:616263"}[:c.Rng.Range(1, 3)]
+			post := []string{"h:-2", "S:6f6b", "b:1", "B:" + hexOf(randBytes(c, c.Rng.Range(1, 60))), "v:300", "l:-9"}[:c.Rng.Range(2, 6)]
+			c.Emit("seq | %s ; %s%s ; %s", strings.Join(pre, " ; "), t, hexOf(randBytes(c, n)), strings.Join(post, " ; "))
+			c.Count("big_record_64KiB_and_above")
+		}
+	}
 	for i := 0; i < c.Budget(2, 12); i++ { // 3-byte prefixes well above 16384, 4-byte prefix (2^21) in the thorough tier
 		n := c.Rng.Range(16386, 100000)
 		if c.Thorough() && i%4 == 0 {
